@@ -51,6 +51,9 @@ func ZZH15Comments() {
 	pretty := newCompiler(true, semi, 2).Compile(prog).Code
 	compact := newCompiler(false, true, 0).Compile(prog).Code
 	sym.Observe("out", pretty, compact)
+	// requesting a source map must not move, drop or duplicate comments
+	prettyMap := newCompiler(true, semi, 2).WithSourceMap().Compile(prog).Code
+	sym.Assert(sym.EqStr(prettyMap, pretty), "comments-placed-identically-with-a-source-map")
 
 	// the same program without trivia
 	bare := &Script{EOF: s.EOF}
@@ -136,9 +139,11 @@ func ZZH15Text() {
 	n := 1 + sym.Choose("commentlen", sym.Param("commentlen", 2))
 	c := sym.String("comment", n)
 	for i := 0; i < n; i++ {
-		sym.Assume(sym.And(c[i] >= 0x20, c[i] <= 0x7e))
+		// printable ASCII or any byte of a multi-byte character
+		sym.Assume(sym.And(c[i] >= 0x20, c[i] != 0x7f))
 	}
-	sym.Assume(c[n-1] != ' ')
+	// last byte visible ASCII (trailing white space, ASCII or Unicode, is trimmed: outside the claim)
+	sym.Assume(sym.And(c[n-1] > ' ', c[n-1] <= 0x7e))
 	shapes := []string{
 		"a;//" + c,
 		"a;//" + c + "\n",
